@@ -55,6 +55,8 @@ package solvers
 //@ stable solutionResult.victimsTasks
 //@ stable solutionResult.victimJobs
 //@ stable JobSolver.feasibleNodes
+// a *framework.Checkpoint cell (evictPotentialVictimsFromNode returns the address of a local) is never written through
+//@ stable slicetype []framework.Checkpoint
 //@ stable JobSolver.solutionValidator
 //@ stable JobSolver.generateVictimsQueue
 //@ stable JobSolver.actionType
